@@ -7,6 +7,7 @@ import (
 	"os"
 
 	"bwverif/bq"
+	"bwverif/gen"
 
 	"github.com/google/badwolf/triple"
 	"github.com/google/badwolf/triple/literal"
@@ -53,6 +54,34 @@ func init() {
 		fmt.Printf("statement: %s\nstage=%d err=%v\n", stmt, stage, err)
 		if tbl != nil {
 			fmt.Println(tbl.String())
+		}
+		return 0
+	}
+}
+
+// aux "c08": run statement texts given as arguments against C08's populated
+// store and print stage, error and table (triage helper).
+func init() {
+	Aux["c08"] = func(args []string) int {
+		ctx := context.Background()
+		if len(args) == 1 && args[0] == "mixed" {
+			args = nil
+			for _, s := range gen.MixedAggregateStatements() {
+				st := c08Store(ctx, 1)
+				_, stage, err := bq.Run(ctx, st, s, 0, 10)
+				if stage == bq.StageParse {
+					fmt.Printf("stage=%d err=%v :: %s\n", stage, err, s)
+				}
+			}
+			return 0
+		}
+		for _, s := range args {
+			st := c08Store(ctx, 1)
+			tbl, stage, err := bq.Run(ctx, st, s, 0, 10)
+			fmt.Printf("statement: %s\nstage=%d err=%v\n", s, stage, err)
+			if tbl != nil {
+				fmt.Println(tbl.String())
+			}
 		}
 		return 0
 	}
